@@ -9,7 +9,7 @@ import numpy as np
 from toolz import pluck
 
 from dask._task_spec import Alias, Task, TaskRef
-from dask_array._expr import ArrayExpr
+from dask_array._expr import ArrayExpr, _chunks_match
 from dask_array._chunk import getitem
 from dask_array._utils import meta_from_array
 from dask_array.slicing._utils import (
@@ -385,7 +385,13 @@ class SliceSlicesIntegers(Slice):
                         else:
                             idx = normalize_slice(idx, dim)
                     normalized.append(idx)
-                return SliceSlicesIntegers(self.array.array, tuple(normalized), self.allow_getitem_optimization)
+                fused_expr = SliceSlicesIntegers(self.array.array, tuple(normalized), self.allow_getitem_optimization)
+                if not _chunks_match(fused_expr.chunks, self.chunks):
+                    # e.g. x[::2][0:3]: the fused slice keeps a stop that is
+                    # not tightened to the last element taken and can grow a
+                    # zero-width block the two slices did not advertise.
+                    raise NotImplementedError("fused slice has other chunks")
+                return fused_expr
             except NotImplementedError:
                 # Skip fusion for unsupported slicing patterns (e.g., negative step)
                 pass
